@@ -14,7 +14,8 @@ PointD GetUnitNormal(Point64 a, Point64 b) __CPROVER_requires(1) __CPROVER_ensur
 #define VF_NORM_PUSH(v, a, b) do { __CPROVER_assert((v).size < (v).cap, "push within reserved capacity"); if ((v).size == g_k) { g_from = (a); g_to = (b); g_seen = true; } (void)GetUnitNormal(a, b); (v).size++; } while (0)
 //@extract file=CPP/Clipper2Lib/src/clipper.offset.cpp func=ClipperOffset::BuildNormals self=ClipperOffset byval=path vec=path iters=path:path_iter,path_stop_iter members=norms
 //@presub /--path\.cend\(\)/path.cend() - 1/
-//@presub /\*\(path\.cbegin\(\)\)/path[0]/
+//@presub /\*\(path\.cbegin\(\)\)/path[0]/ min=0
+//@presub /\*\((path_iter|path_stop_iter)\)/*\1/ min=0
 //@presub /norms\.clear\(\);/norms.size = 0;/
 //@presub /norms\.reserve\(([^;]*)\);/norms.cap = \1;/
 //@presub /norms\.emplace_back\(GetUnitNormal\(([^;]*)\)\);/VF_NORM_PUSH(norms, \1);/ min=2
